@@ -74,6 +74,32 @@ def sink : List ScpRec → List Bytes → List (List Bytes)
     | [] => []
     | _ :: up => sink rest up
 
+/-- the same loop with levels that may contribute no path component: `none` is the destination itself, created
+    by the first 'D' record when the destination path did not exist (its name is dropped) -/
+def sinkO : List ScpRec → List (Option Bytes) → List (List Bytes)
+  | [], _ => []
+  | .file n :: rest, stack => (stack.reverse.filterMap id ++ [n]) :: sinkO rest stack
+  | .dir n :: rest, stack => (stack.reverse.filterMap id ++ [n]) :: sinkO rest (some n :: stack)
+  | .bad _ :: rest, stack => sinkO rest stack
+  | .time :: rest, stack => sinkO rest stack
+  | .endDir :: rest, stack =>
+    match stack with
+    | [] => []
+    | _ :: up => sinkO rest up
+
+/-- The sink when the destination path does not exist yet (`isFile = false`) or is a regular file
+    (`isFile = true`): a 'C' record writes the destination itself (path `[]`); a 'D' record creates it as a
+    directory and enters it (or fails with "Not a directory" when it is a file); `_recv_files` computes
+    `new_dstpath = dstpath` whenever `dstpath` is not a directory. -/
+def sinkNew : List ScpRec → Bool → List (List Bytes)
+  | [], _ => []
+  | .file _ :: rest, _ => [] :: sinkNew rest true
+  | .dir _ :: rest, false => [] :: sinkO rest [none]
+  | .dir _ :: rest, true => sinkNew rest true
+  | .bad _ :: rest, f => sinkNew rest f
+  | .time :: rest, f => sinkNew rest f
+  | .endDir :: _, _ => []
+
 /-! ### recursive SFTP get -/
 
 /-- the entry-name filter of `SFTPClient._copy`: `.`/`..` are skipped, a name containing `/` raises. -/
